@@ -6,8 +6,10 @@ import OrixProofs.Properties.C16
 /-
 C18 — results do not depend on evaluation strategy.
 
-As algebra: (i) chunked evaluation — for EVERY chunk size — of element-wise maps and of outer products equals whole
-evaluation (values and layout); (ii) the dask einsum coefficient tables and the built-in numba kernels are the same
+As algebra: (i) chunked evaluation — for EVERY chunk size — of element-wise maps, of element-wise binary operations on equally
+chunked operands, of outer products and of associative reductions (the max over symmetry-equivalent pairs that the lazy distance
+matrices take block by block; tied to the code by the `symmetry_lazy` site, lazy = eager for every chunk size) equals whole
+evaluation (values and layout), and every chunk is non-empty and at most the chunk size; (ii) the dask einsum coefficient tables and the built-in numba kernels are the same
 polynomials as the model's Hamilton product / rotation (AST-translated obligations `outer_dask_qq/qv`,
 `qu_multiply_gufunc`, `qu_rotate_vec_gufunc`, `qu_conj_gufunc` = model, re-proved on every run; listed in the evidence);
 (iii) integers and float32 values embed into the reals by ring homomorphisms, so the dtype only changes input rounding;
